@@ -983,6 +983,11 @@ where
                 }
             };
 
+            // A previous `format_event` on this thread may have unwound out of this
+            // function (e.g. a panicking `Debug` impl caught by the caller) before
+            // reaching the `buf.clear()` below; never start from its leftovers.
+            buf.clear();
+
             let ctx = self.make_ctx(ctx, event);
             if self
                 .fmt_event
